@@ -1,4 +1,5 @@
 import Varpulis.Lemmas.Zdd
+import Varpulis.Lemmas.ZddTable
 /-!
 # C06 — ZDD operations implement set-family algebra exactly
 
@@ -56,5 +57,114 @@ theorem arena_difference_defect_witness :
 /-- non-vacuity: a non-trivial reachable family meets the premises -/
 example : Ord 0 (pwo (pwo (fromSet [3]) 1) 2) ∧ sets (pwo (pwo (fromSet [3]) 1) 2) = [[3], [2, 3], [1, 3], [1, 2, 3]] := by
   simp [pwo, fromSet, normalize, insertSorted, fromSorted, mk, sets, Zdd.Ord]
+
+/-! ## Table layer: the arena operations *with their persistent caches* refine the tree operations
+
+`Arena` (Model/ZddTable.lean) mirrors `ZddArena`: the node table plus `union_cache`, `intersection_cache`,
+`difference_cache`, `count_cache`. `Arena.OK` = table invariant `TWF` + every entry of every cache is
+correct w.r.t. `treeOf`. Each operation, started in an `OK` arena on dereferenceable handles,
+returns (`some`: it neither panics nor runs out of the node-id fuel — the termination argument),
+keeps `OK`, only appends to the table (`Ext`), and its result denotes the tree operation of
+Model/Zdd.lean — whose set-family meaning is given by the theorems above. -/
+section Table
+open Varpulis.ZddT
+
+/-- a table that only grew keeps every existing handle dereferenceable and denoting the same tree
+(so `Ext` in the statements below means: the trees of all existing refs are unchanged) -/
+theorem arena_growth_keeps_handles (t t' : Table) (hw : TWF t) (hx : Ext t t') (x : Ref) (hv : Valid t x) :
+    Valid t' x ∧ treeOf t' x = treeOf t x := ext_keeps hw hx hv
+
+theorem arena_union_refines (s : Arena) (hs : s.OK) (a b : Ref) (ha : Valid s.table a) (hb : Valid s.table b) :
+    ∃ s' r, s.union a b = some (s', r) ∧ s'.OK ∧ Ext s.table s'.table ∧ Valid s'.table r ∧
+      treeOf s'.table r = Zdd.union (treeOf s.table a) (treeOf s.table b) := Arena.union_spec hs ha hb
+
+theorem arena_intersection_refines (s : Arena) (hs : s.OK) (a b : Ref) (ha : Valid s.table a) (hb : Valid s.table b) :
+    ∃ s' r, s.inter a b = some (s', r) ∧ s'.OK ∧ Ext s.table s'.table ∧ Valid s'.table r ∧
+      treeOf s'.table r = Zdd.inter (treeOf s.table a) (treeOf s.table b) := Arena.inter_spec hs ha hb
+
+theorem arena_difference_refines (s : Arena) (hs : s.OK) (a b : Ref) (ha : Valid s.table a) (hb : Valid s.table b) :
+    ∃ s' r, s.diff a b = some (s', r) ∧ s'.OK ∧ Ext s.table s'.table ∧ Valid s'.table r ∧
+      treeOf s'.table r = Zdd.diff (treeOf s.table a) (treeOf s.table b) := Arena.diff_spec hs ha hb
+
+/-- `product_with_optional` with its per-call cache and the shared union cache -/
+theorem arena_pwo_refines (s : Arena) (hs : s.OK) (a : Ref) (ha : Valid s.table a) (var : Nat) :
+    ∃ s' r, s.pwo a var = some (s', r) ∧ s'.OK ∧ Ext s.table s'.table ∧ Valid s'.table r ∧
+      treeOf s'.table r = Zdd.pwo (treeOf s.table a) var := Arena.pwo_spec hs ha var
+
+/-- `count` through the persistent `count_cache` -/
+theorem arena_count_refines (s : Arena) (hs : s.OK) (a : Ref) (ha : Valid s.table a) :
+    ∃ s', s.count a = some (s', Zdd.count (treeOf s.table a)) ∧ s'.OK ∧ s'.table = s.table :=
+  Arena.count_spec hs ha
+
+theorem arena_contains_refines (s : Arena) (hs : s.OK) (a : Ref) (ha : Valid s.table a) (q : List Nat) :
+    s.contains a q = some (Zdd.contains (treeOf s.table a) (normalize q)) := Arena.contains_spec hs ha q
+
+theorem arena_singleton_refines (s : Arena) (hs : s.OK) (var : Nat) :
+    (s.singleton var).1.OK ∧ Ext s.table (s.singleton var).1.table ∧
+      Valid (s.singleton var).1.table (s.singleton var).2 ∧
+      treeOf (s.singleton var).1.table (s.singleton var).2 = Zdd.singleton var := Arena.singleton_spec hs var
+
+theorem arena_from_set_refines (s : Arena) (hs : s.OK) (l : List Nat) :
+    (s.fromSet l).1.OK ∧ Ext s.table (s.fromSet l).1.table ∧
+      Valid (s.fromSet l).1.table (s.fromSet l).2 ∧
+      treeOf (s.fromSet l).1.table (s.fromSet l).2 = Zdd.fromSet l := Arena.fromSet_spec hs l
+
+/-- end to end, for one operation: the handle returned by the cached arena difference denotes exactly
+the set difference of the families of its arguments, whatever the cache contents (under `OK`) -/
+theorem arena_difference_family (s : Arena) (hs : s.OK) (a b : Ref) (ha : Valid s.table a) (hb : Valid s.table b) :
+    ∃ s' r, s.diff a b = some (s', r) ∧ s'.OK ∧
+      ∀ m, m ∈ sets (treeOf s'.table r) ↔ m ∈ sets (treeOf s.table a) ∧ m ∉ sets (treeOf s.table b) := by
+  obtain ⟨s', r, e, ok, _, _, z⟩ := Arena.diff_spec hs ha hb
+  exact ⟨s', r, e, ok, fun m => by
+    rw [z]; exact mem_diff _ _ 0 (tree_ord hs.twf ha) (tree_ord hs.twf hb) m⟩
+
+/-- non-vacuity: the empty arena is `OK`; a populated arena computes `{{1,2}} \ {{2}} = {{1,2}}` -/
+example : Arena.OK {} := Arena.ok_empty
+example : (do
+    let s : Arena := {}
+    let (s, a) := s.fromSet [1, 2]
+    let (s, b) := s.fromSet [2]
+    let (s, r) ← s.diff a b
+    pure (sets (treeOf s.table r))) = some [[1, 2]] := by decide +kernel
+
+/-! ### standalone `Zdd` (own table per value; `remap_nodes` + per-call caches) -/
+
+/-- `remap_nodes(other)` into a clone of `self`'s table: `self`'s refs keep their trees (`Ext`), the
+remapped root denotes `other`'s tree, the combined table is well-formed -/
+theorem zdd_remap_nodes_preserves (self other : ZddS) (hs : self.OK) (ho : other.OK) :
+    ∃ t r, self.remapInto other = some (t, r) ∧ Ext self.table t ∧ TWF t ∧ Valid t r ∧ treeOf t r = other.den :=
+  ZddS.remapInto_spec hs ho
+
+theorem zdd_constructors_refine (v : Nat) (l : List Nat) :
+    (ZddS.empty.OK ∧ ZddS.empty.den = .empty) ∧ (ZddS.base.OK ∧ ZddS.base.den = .base) ∧
+    ((ZddS.singleton v).OK ∧ (ZddS.singleton v).den = Zdd.singleton v) ∧
+    ((ZddS.fromSet l).OK ∧ (ZddS.fromSet l).den = Zdd.fromSet l) :=
+  ⟨ZddS.ok_empty, ZddS.ok_base, ZddS.singleton_spec v, ZddS.fromSet_spec l⟩
+
+theorem zdd_union_refines (self other : ZddS) (hs : self.OK) (ho : other.OK) :
+    ∃ z, self.union other = some z ∧ z.OK ∧ z.den = Zdd.union self.den other.den := ZddS.union_spec hs ho
+
+theorem zdd_intersection_refines (self other : ZddS) (hs : self.OK) (ho : other.OK) :
+    ∃ z, self.inter other = some z ∧ z.OK ∧ z.den = Zdd.inter self.den other.den := ZddS.inter_spec hs ho
+
+theorem zdd_difference_refines (self other : ZddS) (hs : self.OK) (ho : other.OK) :
+    ∃ z, self.diff other = some z ∧ z.OK ∧ z.den = Zdd.diff self.den other.den := ZddS.diff_spec hs ho
+
+theorem zdd_product_refines (self other : ZddS) (hs : self.OK) (ho : other.OK) :
+    ∃ z, self.product other = some z ∧ z.OK ∧ z.den = Zdd.product self.den other.den := ZddS.product_spec hs ho
+
+theorem zdd_pwo_refines (self : ZddS) (hs : self.OK) (var : Nat) :
+    ∃ z, self.pwo var = some z ∧ z.OK ∧ z.den = Zdd.pwo self.den var := ZddS.pwo_spec hs var
+
+theorem zdd_count_contains_refine (self : ZddS) (hs : self.OK) (q : List Nat) :
+    self.count = some (Zdd.count self.den) ∧ self.contains q = some (Zdd.contains self.den (normalize q)) :=
+  ⟨ZddS.count_spec hs, ZddS.contains_spec hs q⟩
+
+/-- every tree denoted by a standalone `Zdd` or an arena handle satisfies the ordering premise
+`Ord 0` of the tree-layer theorems above -/
+theorem denoted_trees_ordered (t : Table) (hw : TWF t) (r : Ref) (hv : Valid t r) : Ord 0 (treeOf t r) :=
+  tree_ord hw hv
+
+end Table
 
 end Varpulis.Props.C06
